@@ -620,6 +620,95 @@ func RunTimepb(c *core.Ctx) {
 	}
 
 	runTimepbAdd(c, pkg, fns)
+	runTimepbAddStd(c, pkg, fns)
+}
+
+// runTimepbAddStd: structural clauses of AddStd (its arithmetic is time.Time's: A3).
+// Every non-nil return is a fresh value (address of a local copy, or the result of timestamppb.New
+// applied to t.AsTime().Add(d)); the computed result is returned only after
+// overflowPanic(t, result, d < 0).
+func runTimepbAddStd(c *core.Ctx, pkg *packages.Package, fns map[string]*ast.FuncDecl) {
+	const src = "S0"
+	fd := fns["AddStd"]
+	if fd == nil {
+		c.Fail("TIME.anchor", "timepb.AddStd", "function not found", "", src)
+		return
+	}
+	info := pkg.TypesInfo
+	ps := paramNames(fd)
+	if len(ps) != 2 {
+		c.Undec("TIME.std", "timepb.AddStd", "expected parameters (t, d)", c.PosStr(pkg.Fset, fd.Pos()), src)
+		return
+	}
+	tP, dP := ps[0], ps[1]
+	fresh := map[types.Object]string{} // local -> how it was created
+	checked := map[types.Object]bool{} // overflowPanic(t, local, d < 0) seen
+	nRet := 0
+	var walk func(list []ast.Stmt, guardZero bool)
+	walk = func(list []ast.Stmt, guardZero bool) {
+		for _, s := range list {
+			switch t := s.(type) {
+			case *ast.IfStmt:
+				walk(t.Body.List, types.ExprString(t.Cond) == dP+" == 0")
+				if b, ok := t.Else.(*ast.BlockStmt); ok {
+					walk(b.List, false)
+				}
+			case *ast.AssignStmt:
+				if t.Tok == token.DEFINE && len(t.Lhs) == 1 && len(t.Rhs) == 1 {
+					id, _ := t.Lhs[0].(*ast.Ident)
+					if id == nil {
+						continue
+					}
+					rhs := types.ExprString(t.Rhs[0])
+					switch {
+					case rhs == "*"+tP:
+						fresh[info.ObjectOf(id)] = "copy"
+					default:
+						if call, ok := t.Rhs[0].(*ast.CallExpr); ok && core.QualName(core.CalleeObj(info, call)) == "google.golang.org/protobuf/types/known/timestamppb.New" &&
+							len(call.Args) == 1 && types.ExprString(call.Args[0]) == tP+".AsTime().Add("+dP+")" {
+							fresh[info.ObjectOf(id)] = "new"
+						}
+					}
+				}
+			case *ast.ExprStmt:
+				if call, ok := t.X.(*ast.CallExpr); ok && len(call.Args) == 3 {
+					if f, ok := core.CalleeObj(info, call).(*types.Func); ok && f.Pkg() == pkg.Types && f.Name() == "overflowPanic" {
+						if types.ExprString(call.Args[0]) == tP && types.ExprString(call.Args[2]) == dP+" < 0" {
+							if id, ok := call.Args[1].(*ast.Ident); ok {
+								checked[info.ObjectOf(id)] = true
+							}
+						}
+					}
+				}
+			case *ast.ReturnStmt:
+				nRet++
+				con := fmt.Sprintf("timepb.AddStd return#%d", nRet)
+				rp := c.PosStr(pkg.Fset, t.Pos())
+				if len(t.Results) != 1 {
+					continue
+				}
+				r := ast.Unparen(t.Results[0])
+				if types.ExprString(r) == "nil" {
+					c.Ok("TIME.std", con, "nil for a nil timestamp", rp, src)
+					continue
+				}
+				if u, ok := r.(*ast.UnaryExpr); ok && u.Op == token.AND {
+					if id, ok := u.X.(*ast.Ident); ok && fresh[info.ObjectOf(id)] == "copy" && guardZero {
+						c.Ok("TIME.std", con, "zero duration: address of a fresh copy of *t", rp, src)
+						continue
+					}
+				}
+				if id, ok := r.(*ast.Ident); ok && fresh[info.ObjectOf(id)] == "new" {
+					c.Check(checked[info.ObjectOf(id)], "TIME.std", con, "timestamppb.New(t.AsTime().Add(d)) returned after overflowPanic(t, result, d < 0)",
+						"the computed timestamp is returned without the overflowPanic(t, result, d < 0) check", rp, src)
+					continue
+				}
+				c.Fail("TIME.std", con, "returns "+types.ExprString(r)+", which is neither nil, a fresh copy of *t under d == 0, nor the checked result of timestamppb.New(t.AsTime().Add(d))", rp, src)
+			}
+		}
+	}
+	walk(fd.Body.List, false)
+	c.Check(nRet >= 3, "TIME.std", "timepb.AddStd returns", fmt.Sprintf("%d returns analysed", nRet), "expected the nil, zero-duration and computed returns", c.PosStr(pkg.Fset, fd.Pos()), src)
 }
 
 func paramNames(fd *ast.FuncDecl) []string {
